@@ -1073,6 +1073,11 @@ func (e *Evaluator) evalRules(rules []*Rule) error {
 		match := true
 		if rule.Pattern != nil {
 			cell, err := e.evalExpr(rule.Pattern)
+			if err == errNext {
+				// next executed while evaluating the pattern, e.g. in a function
+				// it calls, skips the rest of the rules like next in a body
+				return nil
+			}
 			if err != nil {
 				return err
 			}
